@@ -59,6 +59,9 @@ func init() {
 		file("root/sub/x.lisp", "in-x")
 		file("root2/c.lisp", "out-c")
 		file("out/secret.lisp", "out-secret")
+		file("a.lisp", "out-wa")
+		file("out/a.lisp", "out-oa")
+		file("out/b.lisp", "out-ob")
 		file("plain/a.lisp", "in-a")
 		file("plain/main.lisp", "in-main")
 		file("plain/sub/b.lisp", "in-b")
